@@ -79,19 +79,19 @@ Hypothesis host_decode : decode_host O hp = MOk h2.
 Hypothesis nfc_nil : nfc [] = [].
 
 Definition rendered_min scheme user pw path q frag : text :=
-  scheme ++ [58] ++ [47; 47] ++ authority T O ht ptxt user pw ++ join [47] (map (qm CPath) path)
+  sprefix scheme ++ [47; 47] ++ authority T O ht ptxt user pw ++ join [47] (map (qm CPath) path)
          ++ qpart (join [38] (map rpm q)) ++ fpart (qm CFrag frag).
 
 Lemma qm_nil0 c : qm c [] = [].
 Proof. reflexivity. Qed.
 
 Theorem url_init_rendered_min scheme user pw rest q frag :
-  scheme <> [] -> forallb (not_in [58; 47; 63; 35]) scheme = true ->
+  forallb (not_in [58; 47; 63; 35]) scheme = true ->
   scalar_nfc O user -> scalar_nfc O pw -> Forall nopct rest -> Forall pair_okm q -> nopct frag ->
   url_init T O (rendered_min scheme user pw ([] :: rest) q frag)
   = MOk (mkU scheme true (nfc user) (nfc pw) fam' h2 pres ([] :: rest) q frag).
 Proof.
-  intros NE Hs Su Sp Fp Fq Sf. unfold url_init, rendered_min.
+  intros Hs Su Sp Fp Fq Sf. unfold url_init, rendered_min.
   assert (Fpath : Forall nopct ([] :: rest)) by (constructor; [reflexivity|exact Fp]).
   assert (P0 : join [47] (map (qm CPath) ([] :: rest)) = []
                \/ exists p', join [47] (map (qm CPath) ([] :: rest)) = 47 :: p').
@@ -99,12 +99,14 @@ Proof.
     - left. reflexivity.
     - right. rewrite join_nonempty_head, qm_nil0. cbn [app]. eauto. }
   pose proof (parse_url_full T O TOK ht ht_ne ht_chars ptxt pres port_ok hp fam' host_parse
-                scheme user pw _ _ (qm CFrag frag) NE Hs Su Sp P0
+                scheme user pw _ _ (qm CFrag frag) Hs Su Sp P0
                 (C06_Parts.path_chars (qm CPath) nopct qm_path_excl _ Fpath)
                 (C06_Parts.query_chars (qm CQuery) idt nopct qm_query_excl q Fq)) as PU.
-  destruct scheme as [|s0 sr]; [contradiction|].
-  cbn [app] in PU |- *. fold rpm in PU. rewrite PU.
-  cbn [mbind pu_host pu_scheme pu_sep pu_user pu_pass pu_family pu_port pu_path pu_query pu_fragment opt_text].
+  fold rpm in PU.
+  match goal with |- match ?t with [] => _ | _ :: _ => _ end = _ => destruct t as [|x0 xr] eqn:ET end.
+  { exfalso. apply app_eq_nil in ET as [_ ET]. discriminate. }
+  rewrite PU.
+  cbn [mbind pu_host pu_scheme pu_sep pu_user pu_pass pu_family pu_port pu_path pu_query pu_fragment].
   rewrite host_decode. cbn [mbind]. rewrite !opt_text_some_if.
   assert (NEp : ([] :: rest : list text) <> []) by discriminate.
   assert (CP : CPath <> CUser) by discriminate. assert (CQ : CQuery <> CUser) by discriminate.
@@ -127,21 +129,19 @@ Qed.
 
 Theorem to_text_rendered_min scheme sep user pw fam host port rest q frag :
   let u := mkU scheme sep user pw fam host port ([] :: rest) q frag in
-  scheme <> [] ->
   get_authority T O false u = MOk (authority T O ht ptxt user pw) ->
   to_text T O false u = MOk (rendered_min scheme user pw ([] :: rest) q frag).
 Proof.
-  intros u NE GA. unfold to_text. rewrite GA. cbn [mbind]. cbn [u u_scheme u_path u_query u_frag].
-  unfold rendered_min. rewrite query_to_text_min.
-  assert (S1 : nonempty scheme = true) by (destruct scheme; [contradiction|reflexivity]).
+  intros u GA. unfold to_text. rewrite GA. cbn [mbind]. cbn [u u_scheme u_path u_query u_frag].
+  unfold rendered_min, sprefix. rewrite query_to_text_min.
   assert (A1 : nonempty (authority T O ht ptxt user pw) = true).
   { pose proof (authority_ne T O ht ht_ne ptxt user pw) as A. destruct (authority T O ht ptxt user pw); [contradiction|reflexivity]. }
-  rewrite S1, A1. cbn [andb].
+  rewrite A1.
   change (quote T O false CPath) with (qm CPath). change (quote T O false CFrag frag) with (qm CFrag frag).
-  f_equal. rewrite <- !app_assoc. f_equal. cbn [app]. f_equal. f_equal. f_equal.
+  f_equal. f_equal. rewrite <- !app_assoc. cbn [app]. f_equal. f_equal. f_equal.
   destruct rest as [|y r'].
   - cbn [map join]. reflexivity.
-  - cbn [map]. rewrite join_nonempty_head, qm_nil0. cbn [app nonempty negb]. reflexivity.
+  - cbn [map]. rewrite join_nonempty_head, qm_nil0. cbn [app nonempty negb]. rewrite andb_false_r. reflexivity.
 Qed.
 End RoundMin.
 
@@ -172,7 +172,7 @@ Theorem roundtrip_min_class T O :
   forall scheme sep user pw fam host port rest q frag b4 h2,
   let nfc := o_nfc O in
   let u := mkU scheme sep user pw fam host port ([] :: rest) q frag in
-  scheme <> [] -> forallb (not_in [58; 47; 63; 35]) scheme = true ->
+  forallb (not_in [58; 47; 63; 35]) scheme = true ->
   nfc [] = [] ->
   all_scalar (nfc user) = true -> all_scalar (nfc pw) = true ->
   Forall nopct rest -> Forall pair_okm q -> nopct frag ->
@@ -184,11 +184,11 @@ Theorem roundtrip_min_class T O :
   = MOk (mkU scheme true (nfc user) (nfc pw) (if b4 then 4 else 0) h2 (port_back T u) ([] :: rest) q frag).
 Proof.
   intros TOK DOK scheme sep user pw fam host port rest q frag b4 h2 nfc u
-         NE Hs N0 Su Sp Fr Fq Sf HNE F6 HC I4 DEC PV.
+         Hs N0 Su Sp Fr Fq Sf HNE F6 HC I4 DEC PV.
   pose proof (port_text_ok T u PV) as PO.
   assert (H58 : memN 58 host = false) by (apply (forallb_not_in_mem _ _ 58 HC); reflexivity).
   split.
-  - apply (to_text_rendered_min T O host HNE (port_text T u) scheme sep user pw fam host port rest q frag NE).
+  - apply (to_text_rendered_min T O host HNE (port_text T u) scheme sep user pw fam host port rest q frag).
     apply (get_authority_min_plain T O (port_text T u) scheme sep user pw fam host port ([] :: rest) q frag
              HNE F6 H58 eq_refl).
   - apply (url_init_rendered_min T O TOK DOK host HNE (weaken_host_chars host HC) (port_text T u) (port_back T u) PO
@@ -203,7 +203,7 @@ Theorem fixpoint_min_class T O :
   forall scheme sep user pw fam host port rest q frag b4,
   let nfc := o_nfc O in
   let u := mkU scheme sep user pw fam host port ([] :: rest) q frag in
-  scheme <> [] -> forallb (not_in [58; 47; 63; 35]) scheme = true ->
+  forallb (not_in [58; 47; 63; 35]) scheme = true ->
   nfc [] = [] -> (forall x, nfc (nfc x) = nfc x) -> (forall x, nfc x = [] -> x = []) ->
   all_scalar (nfc user) = true -> all_scalar (nfc pw) = true ->
   Forall nopct rest -> Forall pair_okm q -> nopct frag ->
@@ -213,9 +213,9 @@ Theorem fixpoint_min_class T O :
   forall m u', to_text T O false u = MOk m -> url_init T O m = MOk u' -> to_text T O false u' = MOk m.
 Proof.
   intros TOK DOK scheme sep user pw fam host port rest q frag b4 nfc u
-         NE Hs N0 IDEM NN Su Sp Fr Fq Sf HNE F6 HC I4 DEC PV m u' R P.
+         Hs N0 IDEM NN Su Sp Fr Fq Sf HNE F6 HC I4 DEC PV m u' R P.
   destruct (roundtrip_min_class T O TOK DOK scheme sep user pw fam host port rest q frag b4 host
-              NE Hs N0 Su Sp Fr Fq Sf HNE F6 HC I4 DEC PV) as [R0 P0].
+              Hs N0 Su Sp Fr Fq Sf HNE F6 HC I4 DEC PV) as [R0 P0].
   pose proof (eq_trans (eq_sym R0) R) as EF. inversion EF as [EF']. subst m. clear EF R.
   pose proof (eq_trans (eq_sym P0) P) as EU. inversion EU as [EU']. clear EU P.
   assert (H58 : memN 58 host = false) by (apply (forallb_not_in_mem _ _ 58 HC); reflexivity).
@@ -226,7 +226,7 @@ Proof.
                 (if b4 then 4 else 0) host (port_back T u) ([] :: rest) q frag HNE F6' H58 PT) as GA1.
   rewrite (authority_nfc T O host (port_text T u) user pw N0 IDEM NN) in GA1.
   pose proof (to_text_rendered_min T O host HNE (port_text T u) scheme true (o_nfc O user) (o_nfc O pw)
-                (if b4 then 4 else 0) host (port_back T u) rest q frag NE) as R1.
+                (if b4 then 4 else 0) host (port_back T u) rest q frag) as R1.
   cbn zeta in R1. unfold rendered_min in R1 at 1.
   rewrite (authority_nfc T O host (port_text T u) user pw N0 IDEM NN) in R1.
   refine (eq_trans (R1 GA1) _). reflexivity.
